@@ -8,6 +8,15 @@ HERE = os.path.dirname(os.path.dirname(os.path.abspath(__file__)))
 sys.path.insert(0, HERE)
 from rules import registry  # noqa: E402
 
+def _fix_commits():
+    import subprocess
+    try:
+        out = subprocess.check_output(["git", "-C", "/repo", "log", "--reverse", "--format=%h %s", "5c0d3d9..HEAD"], text=True)
+        return [l.split()[0] for l in out.splitlines() if l.split(" ", 1)[1].startswith("fix:")]
+    except Exception:
+        return registry.SOURCE_COMMITS
+
+
 ids = [json.loads(l)["id"] for l in open(os.path.join(HERE, "properties.jsonl"))]
 checks = []
 na = []
@@ -34,7 +43,7 @@ m = {
         "guard": "sierra_db_sierradb_verif",
         "enable": "no hooks: the checks analyse the unmodified source through a rustc_private driver; nothing in /repo is cfg-guarded",
         "baseline_off_cmd": "cd /repo && cargo test --workspace --no-fail-fast --offline",
-        "source_commits": registry.SOURCE_COMMITS,
+        "source_commits": _fix_commits(),
         "add_only": True,
     },
     "engines": [
